@@ -4,6 +4,7 @@ From B2Z Require Import Base.Prims Model.Schema Proofs.SchemaProofs Proofs.DimsP
 From B2Z Require Import Base.Eff Protocol.VczEffects Gen.GenVczProtocol.
 From B2Z Require Import Model.Partitions Proofs.PartitionsProofs Bridge.BridgePartitions.
 From B2Z Require Gen.GenPartitions.
+From B2Z Require Import Gen.GenSchema Bridge.BridgeSchema.
 Import ListNotations.
 Open Scope Z_scope.
 
@@ -62,3 +63,11 @@ Proof.
   exists ps. split; [exact E|]. split; [exact R|]. intros ->. reflexivity.
 Qed.
 Print Assumptions variants_axis_holds_every_record.
+
+(* TRANSLATOR TIE: the array layout function ZarrArraySpec.from_field -- where the dimension names are chosen, incl.
+   the shared names alleles / alt_alleles / genotypes that are used only when the sizes agree (the repair of F3) --
+   as regenerated from the source on this run (translator/schema2coq.py) is the model's from_field that dims_coherent
+   and rows_cols are about *)
+Theorem translated_from_field_is_the_model : forall p f name, gen_from_field p f name = from_field p f name.
+Proof. exact translated_from_field_lemma. Qed.
+Print Assumptions translated_from_field_is_the_model.
